@@ -64,6 +64,8 @@ func runC18(p *core.Prog, r *core.Result) {
 	r.Decided = []string{
 		"R18.1 typestate of one evaluation on every path: up-to-date | evaluating·succeeded | evaluating·failed | failed | (no event only on the return taken because a dependency failed); the body runs only between evaluating and the terminal event; succeeded never on an error edge",
 		"R18.2 target events are emitted only by (*runTarget).Evaluate; run-done exactly once, after the runner returned, with the error that Run returns",
+		"R18.7 sibling agreement of the Events implementations: a method that encodes the event kind as a string uses its own name, never the name of another event",
+		"R18.8 target output goes to the observer of the run: if Project.events can be replaced after load (run(callback=...)), every line writer is bound to the project and reads the current Events at delivery time instead of the one captured at load",
 		"R18.6 the partial-line buffer never retains (a slice of) the caller's chunk: it only grows by copying appends",
 		"R18.5 lineWriter.Write conserves bytes: the unconsumed chunk is cut only at its first newline (c[:nl], c[nl+1:]); the rest becomes the next cursor; per newline exactly one line is delivered - c[:nl] alone only where the buffer is known empty, otherwise the buffer after c[:nl] was appended; without a newline the whole rest is buffered",
 		"R18.4 whenever a lineWriter method hands its buffered partial line to Events.Print it resets the buffer before returning (no byte is delivered twice)",
@@ -538,6 +540,12 @@ func runC18(p *core.Prog, r *core.Result) {
 
 	// ---- R18.5 chunk conservation in lineWriter.Write
 	checkLineReassembly(p, r)
+
+	// ---- R18.7 every Events implementation that encodes the kind of an event names it after the method
+	checkEventKinds(p, r)
+
+	// ---- R18.8 output is delivered to the observer of the run
+	checkOutputSink(p, r)
 
 	// ---- R18.6 the buffer never retains the caller's slice
 	nStore := 0
@@ -1022,4 +1030,151 @@ func bufRetains(in ssa.Instruction) (ssa.Value, bool) {
 		return nil, false
 	}
 	return st.Val, true
+}
+
+
+// eventsMethods lists the method names of the dawn.Events interface.
+func eventsMethods(p *core.Prog) map[string]bool {
+	out := map[string]bool{}
+	tp := p.TPkg("")
+	if tp == nil {
+		return out
+	}
+	if obj := tp.Types.Scope().Lookup("Events"); obj != nil {
+		if it, ok := obj.Type().Underlying().(*types.Interface); ok {
+			for i := 0; i < it.NumMethods(); i++ {
+				out[it.Method(i).Name()] = true
+			}
+		}
+	}
+	return out
+}
+
+// checkEventKinds implements R18.7.
+func checkEventKinds(p *core.Prog, r *core.Result) {
+	names := eventsMethods(p)
+	if len(names) == 0 {
+		r.Unk("R18.7", "anchor:dawn.Events", "-", "interface not found")
+		return
+	}
+	n := 0
+	for _, fn := range p.ModuleFuncs() {
+		if fn.Signature.Recv() == nil || !names[fn.Name()] || fn.Blocks == nil {
+			continue
+		}
+		var own, other []string
+		var at ssa.Instruction
+		core.Instrs(fn, func(in ssa.Instruction) {
+			for _, op := range in.Operands(nil) {
+				c, ok := (*op).(*ssa.Const)
+				if !ok {
+					continue
+				}
+				sv, ok := core.ConstString(c)
+				if !ok || !names[sv] {
+					continue
+				}
+				if sv == fn.Name() {
+					own = append(own, sv)
+				} else {
+					other = append(other, sv)
+					at = in
+				}
+			}
+		})
+		if len(own) == 0 && len(other) == 0 {
+			continue
+		}
+		n++
+		construct := fname(fn) + "#kind"
+		if len(other) > 0 {
+			r.Bad("R18.7", construct, p.InstrPos(at), "%s reports its event under the kind %q: an observer of this stream sees a failed target as another event (e.g. evaluating followed by up-to-date, and never a failure)", fn.Name(), other[0])
+		} else {
+			r.OK("R18.7", construct, p.Pos(fn.Pos()), "reports kind %q", own[0])
+		}
+	}
+	r.Floor("R18.7", n, 3, "Events methods that encode their kind as a string")
+}
+
+// checkOutputSink implements R18.8.
+func checkOutputSink(p *core.Prog, r *core.Result) {
+	// late replacements of Project.events
+	var late []ssa.Instruction
+	for _, fn := range p.ModuleFuncs() {
+		if fn.Pkg == nil || fn.Pkg.Pkg.Path() != pkgRoot {
+			continue
+		}
+		if fn.Name() == "apply" && fn.Signature.Recv() != nil && strings.Contains(fn.Signature.Recv().Type().String(), "LoadOptions") {
+			continue
+		}
+		core.Instrs(fn, func(in ssa.Instruction) {
+			if st, ok := in.(*ssa.Store); ok && core.IsField(st.Addr, pkgRoot, "Project", "events") {
+				late = append(late, in)
+			}
+		})
+	}
+	r.Analysed["late_stores_to_Project_events"] = len(late)
+	if len(late) == 0 {
+		r.OK("R18.8", "dawn.Project.events#fixed-after-load", "-", "Project.events is assigned only while the load options are applied: writers may capture it")
+		return
+	}
+	where := p.InstrPos(late[0])
+	// (1) constructors of lineWriter called from the module bind the writer to the project
+	nCtor := 0
+	for _, fn := range p.ModuleFuncs() {
+		if fn.Pkg == nil || fn.Pkg.Pkg.Path() != pkgRoot || fn.Blocks == nil {
+			continue
+		}
+		// a constructor: returns *lineWriter
+		if fn.Signature.Results().Len() != 1 || !strings.HasSuffix(fn.Signature.Results().At(0).Type().String(), "dawn.lineWriter") {
+			continue
+		}
+		callers := p.StaticCallers(fn)
+		if len(callers) == 0 {
+			continue
+		}
+		nCtor++
+		binds := false
+		core.Instrs(fn, func(in ssa.Instruction) {
+			if st, ok := in.(*ssa.Store); ok {
+				if fa, ok := st.Addr.(*ssa.FieldAddr); ok {
+					if owner, _ := core.FieldOf(fa); owner != nil && owner.Obj().Name() == "lineWriter" && strings.HasSuffix(st.Val.Type().String(), "dawn.Project") {
+						if _, isPrm := st.Val.(*ssa.Parameter); isPrm {
+							binds = true
+						}
+					}
+				}
+			}
+		})
+		r.Check(binds, "R18.8", fname(fn)+"#binds-project", p.InstrPos(callers[0].(ssa.Instruction)), "the writer is bound to the project (its sink is looked up at delivery time)", fmt.Sprintf("this constructor captures an Events value when the target is loaded, but Project.events is replaced later (%s): during run(callback=...) the target's evaluating/completion events go to the callback while its output lines go to the load-time observer, outside any evaluating..completion window there (the terminal renderer dereferences the missing per-target state and crashes)", where))
+	}
+	r.Floor("R18.8", nCtor, 1, "lineWriter constructors in use")
+	// (2) the sink is read from the project when a line is delivered
+	nSink := 0
+	for _, fn := range p.ModuleFuncs() {
+		if fn.Pkg == nil || fn.Pkg.Pkg.Path() != pkgRoot || fn.Signature.Recv() == nil || !strings.Contains(fn.Signature.Recv().Type().String(), "lineWriter") {
+			continue
+		}
+		for _, c := range core.Calls(fn) {
+			if !isInvoke(c, "Events", "Print") {
+				continue
+			}
+			nSink++
+			fresh := core.DependsOn(c.Common().Value, core.SliceOpts{ThroughCall: func(cc *ssa.Call) bool { return core.Callee(cc) != nil && core.InModule(core.Callee(cc)) }}, func(v ssa.Value) bool {
+				return core.LoadOfField(v, pkgRoot, "Project", "events")
+			})
+			if !fresh {
+				// through a sink helper: does the helper read Project.events?
+				if call, ok := c.Common().Value.(*ssa.Call); ok && core.Callee(call) != nil && core.Callee(call).Blocks != nil {
+					core.Instrs(core.Callee(call), func(in ssa.Instruction) {
+						if v, ok := in.(ssa.Value); ok && core.LoadOfField(v, pkgRoot, "Project", "events") {
+							fresh = true
+						}
+					})
+				}
+			}
+			r.Check(fresh, "R18.8", fmt.Sprintf("%s#sink-%d", fname(fn), nSink), p.InstrPos(c.(ssa.Instruction)), "the line is delivered to the project's current Events", "the line is delivered to the Events captured at load although Project.events can be replaced afterwards ("+where+")")
+		}
+	}
+	r.Floor("R18.8", nSink, 1, "deliveries of lineWriter")
 }
